@@ -39,6 +39,8 @@ pub(crate) mod conn;
 pub(crate) mod streams;
 #[cfg(not(wasm_browser))]
 mod tls;
+#[cfg(all(iroh_verif, not(wasm_browser)))]
+pub use tls::verif as tls_verif;
 #[cfg(not(wasm_browser))]
 mod util;
 
